@@ -25,6 +25,7 @@ from typing import Dict, List, Optional, Set, Tuple
 
 FuncNode = (ast.FunctionDef, ast.AsyncFunctionDef)
 _SIMPLE_DECOS = {"staticmethod"}
+_TRANSPARENT_DECOS = ("numba.jit", "numba.njit", "jit(", "njit(", "jit", "njit", "functools.lru_cache", "lru_cache")  # compile / cache only: same function
 
 
 def _names_in(node: ast.AST) -> Set[str]:
@@ -78,7 +79,7 @@ class _Helper:
         if isinstance(n, ast.AsyncFunctionDef) or n.args.vararg or n.args.kwarg:
             return False
         decos = [ast.unparse(d) for d in n.decorator_list]
-        if any(d not in _SIMPLE_DECOS for d in decos):
+        if any(d not in _SIMPLE_DECOS and not d.startswith(_TRANSPARENT_DECOS) for d in decos):
             return False
         if n.name.startswith("__") and n.name.endswith("__"):
             return False
